@@ -27,7 +27,7 @@ EXPLANATION = (
     "frame on data."
 )
 LEVEL_RULE = "one obligation per pipeline row / subsample branch / return"
-FLOORS = {"R1": 14, "R2": 5, "R3": 10, "R4": 2, "R5": 4, "R6": 4}
+FLOORS = {"R1": 14, "R2": 5, "R3": 10, "R4": 2, "R5": 4, "R6": 4, "R7": 1}
 
 OPTS = ["head", "tail", "sample", "random_state"]
 
@@ -176,7 +176,8 @@ def r3_subsample(ctx):
         cfg = cfg_of(f.node)
         obj = f.positional[1]
         for opt, meth in (("head", "head"), ("tail", "tail"), ("sample", "sample")):
-            calls = [c for c in calls_in(f.node) if isinstance(c.func, ast.Attribute) and c.func.attr == meth and txt(c.func.value) == obj]
+            calls = [c for c in calls_in(f.node) if isinstance(c.func, ast.Attribute) and c.func.attr == meth
+                     and txt(c.func.value) in (obj, f"{obj}.collect()", f"{obj}.lazy()")]
             if not calls:
                 # positional slicing is an equivalent spelling of head(n) - `x.iloc[:n]` - but not of tail(n): `x.iloc[-0:]` is all of x
                 sl = [n for n in ast.walk(f.node) if isinstance(n, ast.Subscript) and isinstance(n.value, ast.Attribute) and n.value.attr == "iloc"
@@ -200,7 +201,12 @@ def r3_subsample(ctx):
             ok_a = bool(c.args) and txt(c.args[0]) == opt
             ctx.ob("R3", f, f"{f.short}: `{txt(c)[:50]}` under `{opt} is not None`", ok_g and ok_a,
                    f"guard {show_condition(pc)}; argument {txt(c.args[0]) if c.args else None}")
-            appended = isinstance(parent(c), ast.Call) and callee_last(parent(c)) == "append"
+            up = parent(c)
+            while isinstance(up, (ast.Attribute, ast.Call)) and not (isinstance(up, ast.Call) and callee_last(up) == "append"):
+                if isinstance(up, ast.Call) and callee_last(up) not in ("lazy", "collect"):
+                    break
+                up = parent(up)
+            appended = isinstance(up, ast.Call) and callee_last(up) == "append"
             ctx.ob("R3", f, f"{f.short}: the {opt} rows are added to the subsample", appended, "appended to the list that is concatenated" if appended else "selected rows are discarded")
             if opt == "sample":
                 rs = kw(c, "random_state") or kw(c, "seed")
@@ -356,6 +362,35 @@ def r6_same_seed_for_every_draw(ctx):
         raise AnalysisError(f"subsample call sites found: {n}")
 
 
+DATAFRAME_ONLY = {"sample", "shape", "height", "item", "row", "rows", "to_series", "to_dict", "to_dicts", "to_pandas", "to_numpy", "is_duplicated",
+                  "is_unique", "n_unique", "get_column", "get_columns", "iter_rows", "transpose", "hstack", "vstack", "is_empty", "glimpse"}
+
+
+def r7_lazyframe_api_only(ctx):
+    """The polars backends work on a `pl.LazyFrame`.  Methods that exist on `pl.DataFrame` only (sample, shape, item,
+    is_duplicated, rows ...) raise AttributeError on it, so a parameter annotated `pl.LazyFrame` is used through the
+    LazyFrame API only (collect first).  `check_obj.sample(...)` makes every validate(..., sample=n) of the polars backend
+    raise AttributeError instead of returning a verdict."""
+    ix = ctx.ix
+    n = 0
+    for m in ix.modules.values():
+        if not m.path.startswith("pandera/backends/polars/"):
+            continue
+        for f in m.all_functions:
+            a = f.node.args
+            lazy = {x.arg for x in a.args + a.kwonlyargs if x.annotation is not None and txt(x.annotation).endswith("LazyFrame")}
+            if not lazy:
+                continue
+            rebound = {t.id for st in walk_no_nested(f.node) if isinstance(st, ast.Assign) for t in st.targets if isinstance(t, ast.Name)}
+            for c in calls_in(f.node):
+                if isinstance(c.func, ast.Attribute) and isinstance(c.func.value, ast.Name) and c.func.value.id in lazy - rebound and c.func.attr in DATAFRAME_ONLY:
+                    n += 1
+                    ctx.ob("R7", f, f"{f.short}: `{c.func.value.id}` (a pl.LazyFrame) is used through the LazyFrame API", False,
+                           f"`{txt(c)[:60]}`: pl.LazyFrame has no `{c.func.attr}` - the call raises AttributeError (validate(..., sample=n) on the polars backend never "
+                           "reaches a verdict)", f.loc(c))
+    ctx.ob("R7", "pandera/backends/polars", "no DataFrame-only method is called on a LazyFrame-typed parameter", n == 0, "none" if n == 0 else f"{n} call(s)")
+
+
 def run(ctx):
     r1_stages(ctx)
     r2_return(ctx)
@@ -363,4 +398,5 @@ def run(ctx):
     r4_dedup(ctx)
     r5_each_row_once_in_order(ctx)
     r6_same_seed_for_every_draw(ctx)
+    r7_lazyframe_api_only(ctx)
     ctx.assume("head()/tail()/sample() of pandas and polars select rows by position")
